@@ -730,7 +730,7 @@ def write_evidence(prop, tier, seed, results, key, wall, n_viol, undecided):
     trusted = [
         'rustc MIR -> Kani 0.68 GOTO translation, CBMC 6.11 + CaDiCaL; Kani models of alloc/dealloc and x86 SIMD intrinsics',
         'Verus 0.2026.09.13 + Z3; dialect preludes (shim types, assumed std specs) listed under assumptions',
-        'mechanical extraction rules R1-R41 (lib/extract.py, lib/vunits.py; table in DESIGN.md section 0); hit counts under rewrite_rule_hits',
+        'mechanical extraction rules R1-R42 (lib/extract.py, lib/vunits.py; table in DESIGN.md section 0); hit counts under rewrite_rule_hits',
         'usize is 64-bit; 32-bit targets not covered',
         'specification predicates in /verif/hook/*.rs and /verif/contracts/*.vspec say what the property says (reviewed by hand)',
     ]
